@@ -71,7 +71,13 @@ def run(case):
     try:
         if k == "bstream":
             data = b"".join(_f["benc"](b_build(m)) for m in case["msgs"])
-            return b_decode_all(data[:case["cut"]])
+            cuts = []
+            for cut in range(len(data) + 1):
+                r = b_decode_all(data[:cut])
+                if "err" in r:
+                    return r
+                cuts.append([r["items"], r["rest"]])
+            return {"cuts": cuts}
         if k == "braw":
             return b_decode_all(bytes(case["data"]))
         if k == "benc":
